@@ -228,7 +228,24 @@ def build(scr, lines, cuts, places, top="abs", alias=(), decoy=None):
             cand = os.path.normpath(os.path.join(os.path.dirname(os.path.realpath(inc)), rd, name))
             if not os.path.lexists(cand):
                 scr.write(os.path.dirname(cand), name, decoy)
+    scr.last_refs = refs
     return mainpath
+
+
+def plant_cwd_decoys(scr, cwd):
+    """wave 6: where the load runs in a working directory of its own (naming axis 'rel' / 'name'), a harmless decoy
+    file is written wherever a reference, read as a path relative to the WORKING DIRECTORY instead of the including
+    resource, would lead (inside the scratch tree, and only where nothing exists).  A load never reads them.
+    -> number of files written"""
+    n = 0
+    if cwd is None:
+        return n
+    for inc, rd, name in getattr(scr, "last_refs", ()):
+        cand = os.path.normpath(os.path.join(cwd, rd, name))
+        if cand.startswith(scr.base + os.sep) and not os.path.lexists(cand):
+            scr.write(os.path.dirname(cand), name, DECOY)
+            n += 1
+    return n
 
 
 # ---------------------------------------------------------------------------
@@ -741,6 +758,7 @@ def check_seed(scr, sch, lines, acc, mid, tier, cutsets=True, mode="all", fam=No
         # harmless decoy (rejected seeds: the load might be accepted)
         path = build(scr, lines, cuts, places, top, alias, DECOY if named and base[0] != "tree" else None)
         arg, cwd = top_arg(top, path)
+        x["cwd_decoys"] += plant_cwd_decoys(scr, cwd)
         got = outcome_file(sch, arg, None, cwd)
         acc.ev()
         acc.transitions += 1
@@ -1380,6 +1398,7 @@ def run(tier):
                 "few accepted include layouts")
     run.require(a.classes.get("unbalanced:rejected", 0) > 200, "few unbalanced fragments")
     run.require(a.extra.get("truncated_seeds", 0) > 100, "few seeds with the last closer missing")
+    run.require(a.extra.get("cwd_decoys", 0) > 1000, "few decoy files in the working directory")
     x = a.extra
     for k in ("fold-siblings", "fold-via-then-direct", "fold-direct-then-via", "fold-siblings-in-fragment",
               "fold-diamond", "fold-chain", "fold-siblings-3"):
@@ -1531,6 +1550,7 @@ def replay_layout(body):
                 named = top != "abs" or bool(alias)
                 path = build(scr, lines, cuts, case["places"], top, alias, DECOY if named and exp[0] != "tree" else None)
                 arg, cwd = top_arg(top, path)
+                plant_cwd_decoys(scr, cwd)
                 got = outcome_file(sch, arg, None, cwd)
                 print("loadConfig(schema, %r)%s" % (arg.replace(scr.base, "<tmp>"),
                                                     " in the working directory " + cwd.replace(scr.base, "<tmp>") if cwd else ""))
